@@ -89,6 +89,10 @@ pub struct ScopeCase {
     pub close_positions: bool,
     #[serde(default)]
     pub shared_cids: bool,
+    /// bit e set: the execution link of exchange index e is dead (receiver gone); only used by the
+    /// cancel-orders flavour
+    #[serde(default)]
+    pub dead_links: u8,
 }
 
 type ScopeEngine = Engine<TestClock, DefaultState, MultiExchangeTxMap<UnboundedTx<ExecutionRequest>>, DefaultStrategy<DefaultState>, DefaultRiskManager<DefaultState>>;
@@ -272,8 +276,8 @@ impl Check for CommandScope {
 
 
     fn strategy(_tier: Tier) -> BoxedStrategy<ScopeCase> {
-        (simple_world(2..=3, 1..5), prop::collection::vec(inst_spec(), 1..8), strat::filter_spec(), any::<bool>(), prop::bool::weighted(0.4))
-            .prop_map(|(defs, instruments, filter, close_positions, shared_cids)| ScopeCase { defs, instruments, filter, close_positions, shared_cids })
+        (simple_world(2..=3, 1..5), prop::collection::vec(inst_spec(), 1..8), strat::filter_spec(), any::<bool>(), prop::bool::weighted(0.4), prop_oneof![4 => Just(0u8), 1 => 1u8..8])
+            .prop_map(|(defs, instruments, filter, close_positions, shared_cids, dead_links)| ScopeCase { defs, instruments, filter, close_positions, shared_cids, dead_links })
             .boxed()
     }
 
@@ -289,10 +293,19 @@ impl Check for CommandScope {
             .iter()
             .map(|e| {
                 let (tx, rx) = mpsc_unbounded();
+                if !case.close_positions && case.dead_links & (1 << e.key.index()) != 0 {
+                    // dead link: the engine's transmitter belongs to a channel whose receiver is gone
+                    let (dead_tx, dead_rx) = mpsc_unbounded();
+                    drop(dead_rx);
+                    drop(tx);
+                    receivers.push(rx);
+                    return (e.value, Some(dead_tx));
+                }
                 receivers.push(rx);
                 (e.value, Some(tx))
             })
             .collect();
+        let dead = |exchange: usize| !case.close_positions && case.dead_links & (1 << exchange) != 0;
         let mut engine: ScopeEngine = Engine::new(TestClock(ts(T0_MS)), state.clone(), txs, DefaultStrategy::default(), DefaultRiskManager::default());
         let resolver = Resolver::new(&indexed);
         let filter = resolver.filter(&case.filter);
@@ -341,7 +354,7 @@ impl Check for CommandScope {
         let audit = engine.process(EngineEvent::Command(command.clone()));
         let received = drain(&mut receivers);
         let EngineAudit::Process(p) = &audit else { bad!("unexpected-feed-ended", "FeedEnded from process") };
-        if !p.errors.is_none() {
+        if !p.errors.is_none() && (case.close_positions || case.dead_links == 0) {
             bad!("unexpected-errors", "healthy links, yet errors {:?}", p.errors);
         }
         let outputs: Vec<_> = p.outputs.iter().collect();
@@ -350,6 +363,7 @@ impl Check for CommandScope {
         }
 
         let mut both_kinds_in_one = false;
+        let mut dead_in_scope = false;
         let mut pos_with_and_without_price = (false, false);
 
         if !case.close_positions {
@@ -377,9 +391,17 @@ impl Check for CommandScope {
                 both_kinds_in_one |= has_cancellable && has_cif;
             }
             let EngineOutput::Commanded(ActionOutput::CancelOrders(out)) = outputs[0] else { bad!("output-kind", "CancelOrders reported as {:?}", outputs[0]) };
-            if !out.errors.is_none() {
-                bad!("unexpected-errors", "send errors on healthy links: {:?}", out.errors);
+            // requests for an exchange whose link is dead are reported with their error, not delivered,
+            // and leave no mark; everything else in scope is still cancelled
+            let (expected_dead, expected): (Vec<_>, Vec<_>) = expected.into_iter().partition(|(l, _)| dead(*l));
+            let mut failed: Vec<String> = out.errors.iter().map(|(r, _)| format!("{}:{r:?}", r.key.exchange.index())).collect();
+            let mut want_failed: Vec<String> = expected_dead.iter().map(|(l, r)| format!("{l}:{r:?}")).collect();
+            failed.sort();
+            want_failed.sort();
+            if failed != want_failed {
+                bad!("cancel-errors", "filter {filter:?}, dead links {:#b}: requests reported as failed {failed:?}, the in-scope orders on dead links are {want_failed:?}", case.dead_links);
             }
+            dead_in_scope = !want_failed.is_empty();
             let mut reported: Vec<String> = out.sent.iter().map(|r| format!("{}:{r:?}", r.key.exchange.index())).collect();
             let mut got: Vec<String> = Vec::new();
             for (link, r) in &received {
@@ -409,7 +431,7 @@ impl Check for CommandScope {
                 let mut b2 = b.clone();
                 for o in b2.orders.0.values_mut() {
                     let meta = o.state.open_meta().cloned();
-                    if !matches!(o.state, ActiveOrderState::CancelInFlight(_)) {
+                    if !matches!(o.state, ActiveOrderState::CancelInFlight(_)) && !dead(b.instrument.exchange.index()) {
                         o.state = ActiveOrderState::CancelInFlight(CancelInFlight { order: meta });
                     }
                 }
@@ -417,7 +439,13 @@ impl Check for CommandScope {
                     bad!("in-scope-state", "instrument {i} after cancel-orders: orders {:?}, expected every order cancel-in-flight keeping its open data {:?} and nothing else changed", a.orders, b2.orders);
                 }
             }
-            // ---- repeated command requests nothing new -------------------------------------------------
+            // ---- repeated command requests nothing new (a tick with a dead link is fatal: the run
+            // ends there) -------------------------------------------------------------------------------
+            if case.dead_links != 0 {
+                rep.class_if(dead_in_scope && !got.is_empty(), "dead_link_and_healthy_link_both_in_scope");
+                classify_scope(&mut rep, case, n_match, in_scope.len(), both_kinds_in_one, pos_with_and_without_price);
+                return rep;
+            }
             let snapshot = engine.state.clone();
             let audit2 = engine.process(EngineEvent::Command(command));
             let again = drain(&mut receivers);
@@ -519,27 +547,32 @@ impl Check for CommandScope {
             }
         }
 
-        let strict_subset = n_match > 0 && n_match < in_scope.len();
-        rep.class(match case.filter {
-            FilterSpec::None => "filter_none",
-            FilterSpec::Exchanges(_) => "filter_exchanges",
-            FilterSpec::Instruments(_) => "filter_instruments",
-            FilterSpec::Underlyings(_) => "filter_underlyings",
-        });
-        rep.class(if case.close_positions { "close_positions" } else { "cancel_orders" });
-        rep.class_if(strict_subset, "filter_matches_strict_subset");
-        rep.class_if(n_match == 0, "filter_matches_nothing");
-        rep.class_if(case.shared_cids, "instruments_share_client_order_ids");
-        rep.class_if(matches!(&case.filter, crate::props::enginekit::FilterSpec::Exchanges(v) | crate::props::enginekit::FilterSpec::Instruments(v) | crate::props::enginekit::FilterSpec::Underlyings(v) if v.is_empty()), "empty_selection");
-        rep.class_if(both_kinds_in_one, "cancellable_and_cancel_in_flight_together");
-        rep.class_if(pos_with_and_without_price.0 && pos_with_and_without_price.1, "position_with_and_without_price");
-        rep.nontrivial = strict_subset && (both_kinds_in_one || (pos_with_and_without_price.0 && pos_with_and_without_price.1));
+        classify_scope(&mut rep, case, n_match, in_scope.len(), both_kinds_in_one, pos_with_and_without_price);
         rep
     }
 }
 
+fn classify_scope(rep: &mut CaseReport, case: &ScopeCase, n_match: usize, n_total: usize, both_kinds_in_one: bool, pos_with_and_without_price: (bool, bool)) {
+    let strict_subset = n_match > 0 && n_match < n_total;
+    rep.class(match case.filter {
+        FilterSpec::None => "filter_none",
+        FilterSpec::Exchanges(_) => "filter_exchanges",
+        FilterSpec::Instruments(_) => "filter_instruments",
+        FilterSpec::Underlyings(_) => "filter_underlyings",
+    });
+    rep.class(if case.close_positions { "close_positions" } else { "cancel_orders" });
+    rep.class_if(strict_subset, "filter_matches_strict_subset");
+    rep.class_if(n_match == 0, "filter_matches_nothing");
+    rep.class_if(case.shared_cids, "instruments_share_client_order_ids");
+    rep.class_if(matches!(&case.filter, crate::props::enginekit::FilterSpec::Exchanges(v) | crate::props::enginekit::FilterSpec::Instruments(v) | crate::props::enginekit::FilterSpec::Underlyings(v) if v.is_empty()), "empty_selection");
+    rep.class_if(both_kinds_in_one, "cancellable_and_cancel_in_flight_together");
+    rep.class_if(pos_with_and_without_price.0 && pos_with_and_without_price.1, "position_with_and_without_price");
+    rep.class_if(case.dead_links != 0 && !case.close_positions, "cancel_orders_with_a_dead_link");
+    rep.nontrivial = strict_subset && (both_kinds_in_one || (pos_with_and_without_price.0 && pos_with_and_without_price.1));
+}
+
 pub fn run(ctx: &mut Ctx) {
-    ctx.rule = "command_scope: 2..3 exchanges, 3..7 instruments (spot and perpetual on shared underlyings), per instrument 0..4 orders in {open-in-flight, open, partially filled open, cancel-in-flight with/without open data} with time in force rotating through GTC / post-only / IOC / FOK / end-of-day, (in 40% of the cases every instrument numbers its own orders, so instruments share client order ids), flat/long/short position, price unknown / last trade / two-sided L1 / one-sided L1; filter in {none, exchange subsets, instrument subsets, underlying subsets} incl. keys absent from the state and empty selections (built through the public constructors: they select nothing); command CancelOrders (issued twice) or ClosePositions through Engine::process with DefaultStrategy on healthy links. non-trivial = filter matches a strict non-empty subset AND (a matching instrument holds both a cancellable and a cancel-in-flight order, or matching positions with and without a price exist); distinct by hash of the case.".into();
+    ctx.rule = "command_scope: 2..3 exchanges, 3..7 instruments (spot and perpetual on shared underlyings), per instrument 0..4 orders in {open-in-flight, open, partially filled open, cancel-in-flight with/without open data} with time in force rotating through GTC / post-only / IOC / FOK / end-of-day, (in 40% of the cases every instrument numbers its own orders, so instruments share client order ids), flat/long/short position, price unknown / last trade / two-sided L1 / one-sided L1; filter in {none, exchange subsets, instrument subsets, underlying subsets} incl. keys absent from the state and empty selections (built through the public constructors: they select nothing); command CancelOrders (issued twice; in a fifth of the cases some exchanges' links are dead: their requests are reported failed and leave no mark, the rest of the scope is still cancelled) or ClosePositions through Engine::process with DefaultStrategy on healthy links. non-trivial = filter matches a strict non-empty subset AND (a matching instrument holds both a cancellable and a cancel-in-flight order, or matching positions with and without a price exist); distinct by hash of the case.".into();
     ctx.assumptions = vec!["an instrument's market price is what InstrumentDataState::price() reports (documented: volume-weighted mid of a two-sided L1, else last traded price)".into()];
     ctx.run_regressions::<CommandScope>();
     ctx.run::<CommandScope>(ctx.tier.pick(60_000, 1_000_000));
